@@ -136,7 +136,17 @@ func runFuzz(c *core.Ctx, r *rec, idx int) {
 			}
 		}
 		if seen != batch.Len() {
-			r.Violation("C16/iterator-lost-or-duplicated-rows", fmt.Sprintf("iterators yielded %d rows of a batch of %d", seen, batch.Len()), wit)
+			pre := false
+			for _, br := range batch.Rows() {
+				if ts := rowFromFlat(br.Metric()).TS; ts < 0 && ts > -1000 {
+					pre = true
+				}
+			}
+			if pre && seen < batch.Len() {
+				r.Violation(preEpochClass, preEpochMsg(fmt.Sprintf("iterators yielded %d rows of a batch of %d (damaged request)", seen, batch.Len())), wit)
+			} else {
+				r.Violation("C16/iterator-lost-or-duplicated-rows", fmt.Sprintf("iterators yielded %d rows of a batch of %d", seen, batch.Len()), wit)
+			}
 		}
 		batch.Release()
 	}
